@@ -81,6 +81,9 @@ def gen(rng, tier):
             case['empties'] = [[rng.randint(0, 3) for _ in range(rng.randint(0, 2))], [rng.randint(0, 3) for _ in range(rng.randint(0, 2))]]
         elif r2 < 0.16:
             case['layout'] = 'alt'
+        elif r2 < 0.28 and mal is None:
+            # 'StateTraj like': a labeling handed over as the MACRO side of a LumpedStateTraj (more micro than macro states)
+            case['aslumped'] = rng.choice([[1], [2], [1, 2]])
         yield case
     for _ in range(1 if tier == 'quick' else 6):                   # one contingency cell with far more than 46341 frames
         N = rng.choice([60000, 100000])
@@ -169,6 +172,12 @@ def impl(case):
             buf[::2] = a
             return buf[::2]
         t1, t2 = [strided(a) for a in t1], [strided(a) for a in t2]
+    if case.get('aslumped'):
+        from implutil import refine
+        if 1 in case['aslumped']:
+            t1 = mh.LumpedStateTraj(t1, refine(t1))
+        if 2 in case['aslumped']:
+            t2 = mh.LumpedStateTraj(t2, refine(t2))
     if case.get('repeat'):
         # shared objects: earlier comparisons (also with swapped roles) must not change later ones
         o1, o2 = mh.StateTraj(t1), mh.StateTraj(t2)
